@@ -18,9 +18,13 @@ pub mod std {
         use ::std::panic::{catch_unwind, AssertUnwindSafe};
 
         pub use ::std::thread::Result;
-        pub use shuttle::thread::{
-            current, park, park_timeout, sleep, yield_now, scope, Scope, ScopedJoinHandle, Thread, ThreadId,
-        };
+        pub use shuttle::thread::{current, park, scope, sleep, yield_now, Scope, ScopedJoinHandle, Thread, ThreadId};
+
+        /// shuttle's `park_timeout` never times out; model the timeout as elapsing at once
+        /// (a legal spurious wake-up): a scheduling point that gives the other tasks a turn.
+        pub fn park_timeout(_dur: ::std::time::Duration) {
+            shuttle::thread::yield_now();
+        }
 
         pub fn panicking() -> bool {
             ::std::thread::panicking()
@@ -31,26 +35,33 @@ pub mod std {
             Ok(::std::num::NonZeroUsize::new(4).unwrap())
         }
 
+        use ::std::sync::atomic::{AtomicBool, Ordering};
+        use ::std::sync::Arc;
+
         #[derive(Debug)]
-        pub struct JoinHandle<T>(shuttle::thread::JoinHandle<Result<T>>);
+        pub struct JoinHandle<T> {
+            inner: shuttle::thread::JoinHandle<Result<T>>,
+            finished: Arc<AtomicBool>,
+        }
 
         impl<T> JoinHandle<T> {
             pub fn join(self) -> Result<T> {
-                match self.0.join() {
+                match self.inner.join() {
                     Ok(r) => r,
                     Err(e) => Err(e),
                 }
             }
             pub fn thread(&self) -> &Thread {
-                self.0.thread()
+                self.inner.thread()
             }
             pub fn is_finished(&self) -> bool {
-                // shuttle has no non-blocking query; conservative answer
-                false
+                // a polling loop must let the polled thread run: scheduling point
+                shuttle::thread::yield_now();
+                self.finished.load(Ordering::SeqCst)
             }
         }
 
-        fn contain<F, T>(f: F) -> impl FnOnce() -> Result<T>
+        fn contain<F, T>(f: F, finished: Arc<AtomicBool>) -> impl FnOnce() -> Result<T>
         where
             F: FnOnce() -> T,
         {
@@ -60,6 +71,7 @@ pub mod std {
                     crate::world::note_task_died();
                 }
                 crate::world::note_task_finished();
+                finished.store(true, Ordering::SeqCst);
                 r
             }
         }
@@ -71,7 +83,8 @@ pub mod std {
             T: Send + 'static,
         {
             crate::world::note_spawn();
-            JoinHandle(shuttle::thread::spawn(contain(f)))
+            let finished = Arc::new(AtomicBool::new(false));
+            JoinHandle { inner: shuttle::thread::spawn(contain(f, finished.clone())), finished }
         }
 
         #[derive(Debug, Default)]
@@ -98,7 +111,8 @@ pub mod std {
                 if let Some(n) = self.0 {
                     b = b.name(n);
                 }
-                b.spawn(contain(f)).map(JoinHandle)
+                let finished = Arc::new(AtomicBool::new(false));
+                b.spawn(contain(f, finished.clone())).map(|inner| JoinHandle { inner, finished })
             }
         }
     }
@@ -112,7 +126,105 @@ pub mod std {
         };
 
         pub mod mpsc {
-            pub use shuttle::sync::mpsc::*;
+            //! shuttle's channel, with timeouts modelled: shuttle's `recv_timeout` never
+            //! times out, which would turn a polling receiver into a false deadlock. Here
+            //! a timeout elapses after the other tasks were offered `PATIENCE` scheduling
+            //! points without a message arriving (a timer firing early is always legal).
+            use ::std::time::{Duration, Instant};
+
+            pub use shuttle::sync::mpsc::{RecvError, RecvTimeoutError, SendError, Sender, SyncSender, TryRecvError, TrySendError};
+
+            const PATIENCE: usize = 4;
+
+            #[derive(Debug)]
+            pub struct Receiver<T>(shuttle::sync::mpsc::Receiver<T>);
+
+            pub fn channel<T>() -> (Sender<T>, Receiver<T>) {
+                let (s, r) = shuttle::sync::mpsc::channel();
+                (s, Receiver(r))
+            }
+
+            pub fn sync_channel<T>(bound: usize) -> (SyncSender<T>, Receiver<T>) {
+                let (s, r) = shuttle::sync::mpsc::sync_channel(bound);
+                (s, Receiver(r))
+            }
+
+            impl<T> Receiver<T> {
+                pub fn recv(&self) -> Result<T, RecvError> {
+                    self.0.recv()
+                }
+                pub fn try_recv(&self) -> Result<T, TryRecvError> {
+                    self.0.try_recv()
+                }
+                pub fn recv_timeout(&self, _timeout: Duration) -> Result<T, RecvTimeoutError> {
+                    for _ in 0..PATIENCE {
+                        match self.0.try_recv() {
+                            Ok(v) => return Ok(v),
+                            Err(TryRecvError::Disconnected) => return Err(RecvTimeoutError::Disconnected),
+                            Err(TryRecvError::Empty) => shuttle::thread::yield_now(),
+                        }
+                    }
+                    match self.0.try_recv() {
+                        Ok(v) => Ok(v),
+                        Err(TryRecvError::Disconnected) => Err(RecvTimeoutError::Disconnected),
+                        Err(TryRecvError::Empty) => Err(RecvTimeoutError::Timeout),
+                    }
+                }
+                pub fn recv_deadline(&self, _deadline: Instant) -> Result<T, RecvTimeoutError> {
+                    self.recv_timeout(Duration::ZERO)
+                }
+                pub fn iter(&self) -> Iter<'_, T> {
+                    Iter { rx: self }
+                }
+                pub fn try_iter(&self) -> TryIter<'_, T> {
+                    TryIter { rx: self }
+                }
+            }
+
+            #[derive(Debug)]
+            pub struct Iter<'a, T: 'a> {
+                rx: &'a Receiver<T>,
+            }
+            #[derive(Debug)]
+            pub struct TryIter<'a, T: 'a> {
+                rx: &'a Receiver<T>,
+            }
+            #[derive(Debug)]
+            pub struct IntoIter<T> {
+                rx: Receiver<T>,
+            }
+            impl<T> Iterator for Iter<'_, T> {
+                type Item = T;
+                fn next(&mut self) -> Option<T> {
+                    self.rx.recv().ok()
+                }
+            }
+            impl<T> Iterator for TryIter<'_, T> {
+                type Item = T;
+                fn next(&mut self) -> Option<T> {
+                    self.rx.try_recv().ok()
+                }
+            }
+            impl<T> Iterator for IntoIter<T> {
+                type Item = T;
+                fn next(&mut self) -> Option<T> {
+                    self.rx.recv().ok()
+                }
+            }
+            impl<'a, T> IntoIterator for &'a Receiver<T> {
+                type Item = T;
+                type IntoIter = Iter<'a, T>;
+                fn into_iter(self) -> Iter<'a, T> {
+                    self.iter()
+                }
+            }
+            impl<T> IntoIterator for Receiver<T> {
+                type Item = T;
+                type IntoIter = IntoIter<T>;
+                fn into_iter(self) -> IntoIter<T> {
+                    IntoIter { rx: self }
+                }
+            }
         }
 
         pub mod atomic {
